@@ -14,10 +14,10 @@ from verif.pyvc.adapter import contract_ob
 PROPERTY = "C07"
 LEVEL = "other"
 LEVEL_TEXT = "receipt plumbing proved: the lexer appends a normalization receipt exactly when it builds a token with normalized_from, with the token's own position (AST-shape obligation on the real tokenize); which lexemes get normalized_from is a regular-language obligation over the real table; parse_with_warnings returns lexer receipts ++ parser warnings; octave_write's mapping functions map one receipt to one correction (VCs on the real functions). The parser's own receipts (multi-word coalescing etc.) and the end-to-end multiset equality are a bounded stand-in over the content model"
-LEVEL_NOTE = "parser receipts are emitted at ~20 sites inside parse_value/parse_section: explored (B), not proved"
+LEVEL_NOTE = "parser receipts: the multi-word, canonical (no receipt) and bare-flow cases are proved on the real parse_section for all token values (contracts/parse_receipts.py); the other ~15 receipt sites inside parse_value/parse_section are explored (B), not proved"
 TECHNIQUE = "AST-shape + language obligations on the real lexer (R), pre/postconditions on the real plumbing functions discharged by z3 (P), bounded injected-rewrite vs receipt multiset comparison (B)"
 EXPLANATION = "C07: R/P obligations on tokenize, parse_with_warnings, WriteTool._map_parse_warnings_to_corrections/_track_corrections; B: multiset of receipts == multiset of injected rewrites on every model document and subset of rewrite sites, zero receipts on canonical text, through both readers and both tools."
-ASSUMPTIONS = ["canonical text contains no alias lexeme outside strings/comments/zones (C03.R2/R3)", "parser receipts are bounded (B)"]
+ASSUMPTIONS = ["canonical text contains no alias lexeme outside strings/comments/zones (C03.R2/R3)", "parser receipt sites other than multi-word / canonical / bare-flow are bounded (B)"]
 TRUSTED_BASE = ["verif.reglang", "verif.pyvc", "verif.bounded.model", "z3", "cvc5"]
 LEXER = "octave_mcp.core.lexer"
 WRITE = "octave_mcp.mcp.write"
@@ -266,4 +266,7 @@ def obligations(ctx: Ctx):
         obs.append(Ob(f"{P}.B2", "B", "octave_validate.repairs and octave_write.corrections surface the receipts (strict and lenient)", ["octave_mcp.mcp.validate:ValidateTool.execute", "octave_mcp.mcp.write:WriteTool.execute"], C07_b.ob_b2, timeout=3000))
     except ImportError:
         pass
+    from props import lexical as _LX
+
+    obs += _LX.parse_receipt_obs(P)
     return obs
